@@ -22,6 +22,7 @@ EXPLANATION = (
     "element of the old sets (never by app or unkeyed); all listeners are visible "
     "to the sweep (registry rule U for the app registry). Not decided: the "
     "'expiration minus one period' arithmetic beyond the constant ordering.")
+EXPLANATION += ' Also decided: subscriptions are keyed by their connection, and when the sweep stamps from an index of subscribed mailboxes, that index covers every mailbox with a listener.'
 
 
 def run(ctx):
@@ -111,7 +112,7 @@ def run(ctx):
                 continue
             # (a) the touch loop: iterates the registry's Mailbox objects
             if it[0] == "call" and it[1] == ".values" and it[2][0][0] == "reg" and \
-                    it[2][0][2] == "_mailboxes":
+                    it[2][0][2] == model.names.mailboxes[1]:
                 ntouch += 1
                 touched_alts = 0
                 for alt in e["alts"]:
@@ -119,7 +120,7 @@ def run(ctx):
                            if x["k"] == "sql" and x["stmt"].kind == "update" and
                            x["stmt"].table == "mailboxes"]
                     conds = [c for c in _alt_pc(alt, e) if mentions(
-                        c[0], lambda x: x[0] == "reg" and x[2] == "_listeners")]
+                        c[0], lambda x: x[0] == "reg" and x[2] == model.names.listeners[1])]
                     if ups:
                         touched_alts += 1
                         okc = len(conds) == 1 and _nonempty_test(conds[0])
@@ -172,6 +173,8 @@ def run(ctx):
                 e["db"] == "chan" and not any(l["func"] == R.sweep_app for l in loops):
             ctx.ob("R12.keys", construct_of(e), False, e,
                    "a sweep delete outside the per-element loops")
+    if ntouch == 0:
+        ntouch = _touch_by_index(ctx, model, R)
     ctx.require("R12.touch", ntouch, 1, "touch loops over the mailbox registry")
     ctx.require("R12.cmp", ncmp, 1, "classification loops")
     ctx.require("R12.keys", nkeys, 3, "delete statements in the sweep")
@@ -180,11 +183,28 @@ def run(ctx):
         _touch_commit_order(ctx, p)
     # R12.cutoff
     _cutoff(ctx, model)
+    # R12.sub: `has a listener` is what protects a subscribed channel; it must
+    # stay true exactly as long as the subscribing connection is there
+    ctx.rule("R12.sub", "a subscription is keyed by its connection (same rule instances "
+             "as R02.key): nothing but that connection's own close / disconnect removes it")
+    from . import c02
+    from ..report import Ctx
+    sub = Ctx(model, "C02", ctx.tier)
+    c02.run(sub)
+    nsub = 0
+    for o in sub.obligations:
+        if o.rule == "R02.key" and "keyed by the connection" in o.construct:
+            nsub += 1
+            ctx.ob("R12.sub", o.construct, o.ok, o.site, o.detail +
+                   ("" if o.ok else " -- another connection that uses the same key removes "
+                    "this one's listener when it goes away; the still-subscribed channel "
+                    "is then no longer stamped by the sweep and expires"))
+    ctx.require("R12.sub", nsub, 1, "listener registrations")
     # R12.vis
     e4 = e4mod.get(model)
     nv = 0
     for f in e4.findings:
-        if f.kind == "rule_u" and "Server._apps" in f.construct:
+        if f.kind == "rule_u" and model.names.reg_name("apps") in f.construct:
             nv += 1
             ctx.ob("R12.vis", f.construct, f.ok, f.site, f.detail +
                    ("" if f.ok else " -- listeners registered through the dropped object "
@@ -288,7 +308,7 @@ def _classification(ctx, model, p, loop, rows, old_param, old_coll):
 def _touch_commit_order(ctx, p):
     """inside prune: touch loop, then COMMIT(chan), then the classifying select"""
     for e, loops in all_events(p, ("loop",)):
-        if e["func"] == "Server.prune_all_apps":
+        if e["func"] == _R.sweep_all:
             for alt in e["alts"]:
                 seq = []
                 for x in alt["events"]:
@@ -299,8 +319,8 @@ def _touch_commit_order(ctx, p):
                 for x in evs:
                     if x["func"] != _R.sweep_app:
                         continue
-                    if x["k"] == "loop" and x["iter"] and \
-                            strip_wrappers(x["iter"])[0] == "call" and state == 0:
+                    if x["k"] == "loop" and state == 0 and any(
+                            _alt_touches(a) for a in x["alts"]):
                         state = 1
                     elif x["k"] == "commit" and x["db"] == "chan" and state == 1:
                         state = 2
@@ -364,3 +384,57 @@ def _cutoff(ctx, model):
                                x, "" if oko else "per-app sweep receives (%s)" % ", ".join(
                                    show(y)[:30] for y in x["args"]))
     ctx.require("R12.cutoff", n, 1, "calls of the sweep from the timer callable")
+
+
+def _touch_by_index(ctx, model, R):
+    """The sweep stamps the mailboxes named by a container S of the namespace
+    instead of walking the Mailbox registry.  S must then be exactly `ids of
+    mailboxes with at least one listener`:
+      (i)  every listener registration adds the mailbox's own id to S on the
+           same path;
+      (ii) an id leaves S only when the listener table of that mailbox is known
+           to be empty (tested on the path, or cleared before).
+    Returns the number of touch loops of that form."""
+    from ..events import each_event, is_listeners_reg
+    interp = model.interp
+    lattr = model.names.listeners[1]
+    found = 0
+    index_attr = None
+    done = set()
+    for p, e, loops in each_event(model, ["timer"], ("loop",)):
+        if id(e) in done or e["func"] != R.sweep_app:
+            continue
+        done.add(id(e))
+        it = strip_wrappers(e["iter"]) if e["iter"] else None
+        if it is None or it[0] != "reg" or it[1][0] != "obj" or \
+                (it[1][1], it[2]) in interp.registries:
+            continue
+        ups = [x for alt in e["alts"] for x, _ in flat_events(alt["events"])
+               if x["k"] == "sql" and x["stmt"].kind == "update" and
+               x["stmt"].table == "mailboxes" and "updated" in x["stmt"].cols]
+        if not ups:
+            continue
+        found += 1
+        index_attr = (it[1][1], it[2])
+        ctx.ob("R12.touch", "sweep stamps the mailboxes listed in %s.%s" % index_attr, True,
+               ups[0], "derived index; obligations (i)/(ii) below")
+    if not found:
+        return 0
+    from . import shared
+    nreg = 0
+    seen = set()
+    for (clause, label, ok, ev, detail, path) in shared.listener_index_obligations(
+            model, index_attr):
+        if clause == "iii":
+            continue     # needed for `derived state` (C11), not for coverage
+        if clause == "i":
+            nreg += 1
+        key = (label, ok)
+        if key in seen:
+            continue
+        seen.add(key)
+        ctx.ob("R12.touch", label, ok, ev, detail + ("" if ok else ": the sweep stops "
+               "stamping a subscribed mailbox, which then expires"),
+               None if ok else render_path(path.events))
+    ctx.require("R12.touch", nreg, 1, "listener registrations")
+    return found
